@@ -13,6 +13,7 @@ import (
 	"go.opentelemetry.io/collector/pdata/pcommon"
 	"go.opentelemetry.io/collector/pdata/plog"
 	"go.opentelemetry.io/collector/pdata/pmetric"
+	"go.opentelemetry.io/collector/pdata/pprofile"
 	"go.opentelemetry.io/collector/pdata/ptrace"
 	"verif.local/simkit"
 )
@@ -469,4 +470,78 @@ func (sh Shape) Gen(tp *simkit.Tape, ids *IDs, signal string) any {
 		return Traces(tp, ids, sh)
 	}
 	return Metrics(tp, ids, sh)
+}
+
+// ---- profiles (items are samples; the id is the sample's first value) ------------------------------------------
+
+func Profiles(tp *simkit.Tape, ids *IDs, sh Shape) pprofile.Profiles {
+	pd := pprofile.NewProfiles()
+	nr := sh.count(tp, sh.MaxResources)
+	for i := 0; i < nr; i++ {
+		rp := pd.ResourceProfiles().AppendEmpty()
+		fillResource(tp, rp.Resource())
+		rp.SetSchemaUrl(schemaURL(tp, "res"))
+		ns := sh.count(tp, sh.MaxScopes)
+		for j := 0; j < ns; j++ {
+			sp := rp.ScopeProfiles().AppendEmpty()
+			fillScope(tp, sp.Scope())
+			sp.SetSchemaUrl(schemaURL(tp, "scope"))
+			np := sh.count(tp, sh.MaxMetrics)
+			for k := 0; k < np; k++ {
+				p := sp.Profiles().AppendEmpty()
+				p.SetPeriod(int64(1 + tp.Draw(3)))
+				p.SetOriginalPayloadFormat([]string{"", "pprof"}[tp.Draw(2)])
+				var pid pprofile.ProfileID
+				pid[0] = byte(1 + tp.Draw(3))
+				p.SetProfileID(pid)
+				nsm := sh.count(tp, sh.MaxItems)
+				for q := 0; q < nsm; q++ {
+					s := p.Sample().AppendEmpty()
+					idn := ids.Next()
+					var n int64
+					fmt.Sscanf(strings.TrimLeft(idn, "abcdefghijklmnopqrstuvwxyz"), "%d", &n)
+					s.Value().Append(n)
+					s.Value().Append(int64(tp.Draw(5)))
+				}
+			}
+		}
+	}
+	return pd
+}
+
+// SampleItems returns id -> fingerprint for every profile sample; prefix is the id prefix used by the generator.
+func SampleItems(pd pprofile.Profiles, prefix string) map[string]string {
+	out := map[string]string{}
+	anon := 0
+	for i := 0; i < pd.ResourceProfiles().Len(); i++ {
+		rp := pd.ResourceProfiles().At(i)
+		rfp := resFP(rp.Resource(), rp.SchemaUrl())
+		for j := 0; j < rp.ScopeProfiles().Len(); j++ {
+			sp := rp.ScopeProfiles().At(j)
+			sfp := scopeFP(sp.Scope(), sp.SchemaUrl())
+			for k := 0; k < sp.Profiles().Len(); k++ {
+				p := sp.Profiles().At(k)
+				pfp := fmt.Sprintf("profile.id=%s|profile.period=%d|profile.format=%s|", p.ProfileID(), p.Period(), p.OriginalPayloadFormat())
+				for q := 0; q < p.Sample().Len(); q++ {
+					s := p.Sample().At(q)
+					id := ""
+					val := ""
+					if s.Value().Len() > 0 {
+						id = fmt.Sprintf("%s%d", prefix, s.Value().At(0))
+						if s.Value().Len() > 1 {
+							val = fmt.Sprint(s.Value().At(1))
+						}
+					} else {
+						anon++
+						id = fmt.Sprintf("<anonymous#%d>", anon)
+					}
+					if _, dup := out[id]; dup {
+						id += "<dup>"
+					}
+					out[id] = rfp + sfp + pfp + "item.value=" + val
+				}
+			}
+		}
+	}
+	return out
 }
